@@ -40,6 +40,12 @@ func ValidateToken(op TokenOptions, token string) error {
 		return errors.New("Token does not represent a valid macaroon")
 	}
 
+	// The location is where GenerateLoginToken records the issuing server name. A macaroon's
+	// signature does not cover it, so it is compared with the name of the validating server.
+	if op.ServerName != "" && mac.Location() != op.ServerName {
+		return errors.New("Provided token was not issued by this server")
+	}
+
 	caveats, err := mac.VerifySignature(op.ServerPrivateKey, nil)
 	if err != nil {
 		return errors.New("Provided token was not issued by this server")
